@@ -70,3 +70,17 @@ Lemma equal_mtimes_hole_refuted :
   alive_flags (run_history post_fix Debug pfx [fA; fB] (h_tie [1%nat])) = [true; false; true] /\
   alive_flags (run_history post_fix Debug pfx [fA; fB] (h_tie [])) = [false; true; true].
 Proof. vm_compute. auto. Qed.
+
+(* D18 repaired (ties broken by path): the same directory, every tie schedule tried, always loses
+   the older file A *)
+Lemma equal_mtimes_fixed :
+  alive_flags (run_history fix18 Debug pfx [fA; fB] (h_tie [1%nat])) = [false; true; true] /\
+  alive_flags (run_history fix18 Debug pfx [fA; fB] (h_tie [])) = [false; true; true] /\
+  alive_flags (run_history fix18 Debug pfx [fA; fB] (h_tie [7%nat; 3%nat])) = [false; true; true].
+Proof. vm_compute. auto. Qed.
+
+(* the directory [fA; fB] (equal mtimes, names in creation order) is strictly sorted in the
+   repaired heap order, and is not in the old one *)
+Lemma equal_mtimes_sorted :
+  heap_leb fix18 (entry_of fB) (entry_of fA) = false /\ heap_leb post_fix (entry_of fB) (entry_of fA) = true.
+Proof. vm_compute. auto. Qed.
